@@ -585,6 +585,8 @@ class Discharger:
         c = s.call
         body = s.body
         n = c.name
+        if n == "std::vec::Vec::drain" and ("RangeFull" in c.full or (len(c.args) > 1 and "RangeFull" in show(strip(self.X.operand(body, c.args[1]))))):
+            return True, "drain(..) over the full range never panics"
         if n in ("std::vec::Vec::remove", "std::vec::Vec::swap_remove"):
             # index = Some-payload of Iterator::position over an iterator of the same vector
             e = strip(self.X.operand(body, c.args[1]))
